@@ -5,8 +5,42 @@ HERE = os.path.dirname(os.path.abspath(__file__))
 sys.path.insert(0, HERE)
 
 TEXT = {
+ 'C01': ('differential co-simulation of the real py4hw cycle simulator against an IEEE 1364 event simulator (vsim) executing the emitted text, under seeded instantiation orders and seeded IEEE-legal event orders (race probe every 8th cycle); outputs compared from power-up on every cycle; mismatches blamed on the first diverging block and attributed to uninitialised storage when they vanish under zero power-up',
+         'samples designs/inputs/schedules; trusted base: vsim (written for this task, 385 self-tests incl. IEEE worked examples); single clock domain; open findings KF-C01-1..5 excluded by narrow predicates and replayed'),
+ 'C02': ('co-simulation of behavioural blocks (8 library blocks that reach the transpiler + seeded random clock()/propagate() programs with interval-checked value ranges + one-unsupported-construct programs) against vsim; outputs and integer state variables compared after every edge; refusal clause: exception, or text that elaborates and agrees',
+         'samples programs and input histories; trusted base: vsim; programs kept inside the stated value domain by construction; open findings KF-C02-1/2'),
+ 'C03': ('every text returned by seeded generation histories (whole hierarchy, child module via different ancestors, createdStructures, interleaved/crashed generations) over netlists with seeded naming faults is parsed and elaborated by vsim with exactly the rules the statement lists',
+         'static property; the simulator contributes the elaborator and the call-history dimension; open findings KF-C03-1..5'),
  'C04': ('seeded search over instantiation orders, late construction, re-sorts, restarts and duplicate evaluation; oracles: topological order, local fixpoint of every stateless leaf, equality with a twin whose real leaves are evaluated by the harness in its own Kahn order, refusal of combinational cycles (length 1-12, across hierarchy), acceptance of cycles through registers',
          'samples schedules and netlists; twin shares the leaf propagate() code (functional defects are C07/C08 matters)'),
+ 'C05': ('visit order of drivers / clockables / listeners re-drawn before every edge, runs split, cancelled (stop) and resumed, re-sorted, restarted; oracles: twin stepped one edge at a time by the harness, pure-Python two-phase reference, Wire.prepared empty after every call, no double prepare, total_clks accounting',
+         'samples designs and schedules; inputs change only between clk calls'),
+ 'C06': ('adversarial constants / reset values / sequence values / pokes (negative, oversized, 2**200) over the whole catalogue; range invariant checked after construction, after every clk, inside listeners and in Waveform samples; the same invariant is monitored in every run of every other check',
+         'samples; observation = Wire.value of every reachable wire'),
+ 'C07': ('one arithmetic block per run inside a registered live testbench with toggling vector sequences and schedule faults (perm_children, resort, sim_restart, extra_settle); oracle: integer function modulo 2**width',
+         'weak fit stated in DESIGN.md: the deciding dimension is seeded sampling of (configuration, input); simulation adds history/schedule independence'),
+ 'C08': ('one logic/selector/comparator block per run inside a registered live testbench with schedule faults; oracle: documented truth table',
+         'weak fit stated in DESIGN.md; sampled, never enumerated products'),
+ 'C09': ('one sequential block per run from power-up under Markov input histories (collisions of reset/enable/inc, push+pop, overfill, same-address read/write), permuted leaf visit order, split/re-sorted/restarted runs; oracle: documented state machine after every call',
+         'samples histories and configurations; models in dsim/catalog.py'),
+ 'C10': ('1-4 clock drivers at seeded hierarchy levels, enables from inputs / other domains / the gated domain itself, 1-3 bit enables, long and single-cycle stalls, permuted driver and leaf order; oracles: reference that clocks a node iff its nearest driver was enabled before the edge, twin of real blocks under the same rule, explicit hold check',
+         'samples'),
+ 'C11': ('model-based construction histories with injected illegal operations (second driver, duplicate child, duplicate wire by create/rename/reparent) + integrity acceptance / single-fault rejection on catalogue netlists; oracle: registry model (raise iff conflict, earlier object stays), independent walk for undriven port wires',
+         'samples operation sequences; a refused rename leaving the wire unregistered is outside the statement'),
+ 'C13': ('one FP block per run in a live testbench with schedule faults; oracle: exact fractions.Fraction arithmetic with the bounds of the statement (ulp, sign, commutativity, truncation, flags)',
+         'weak fit stated in DESIGN.md; domain = finite normal operands, normal exact result'),
+ 'C14': ('one fixed-point block per run in a live testbench with schedule faults; oracle: exact scaled-integer arithmetic; all encodings for widths <= 6',
+         'weak fit stated in DESIGN.md'),
+ 'C15': ('recorder position among clockables permuted, runs split / cancelled / restarted, clear() between segments; oracles: shadow recorder in a harness-stepped twin, getDict equality, WaveDrom decoder round-trip, span = cycles + 2',
+         'samples'),
+ 'C16': ('real adapters (and a kernel with VitisKernelFSM) against fake AXI master/slave/controller with stalls, bursts, reset/done/restart/load landing inside transfers; statement-derived monitors over the recorded history (READY = active, capture/clear rules, VALID persistence, data = latest load, LAST = VALID, KEEP, sent only after a beat, bounded progress)',
+         'samples schedules; beat = VALID & READY & active; done only after a completed transfer'),
+ 'C17': ('real serializer -> line -> clock recovery + deserializer with seeded gaps, bursts, phase, bounded consumer stalls, ratios 4-64, permuted leaf order; oracles: exactly-once in-order delivery, independent software 8N1 receiver on the recorded line, bounded latency',
+         'samples; consumer READY never low for more than 3 bit times'),
+ 'C19': ('histories over 1-3 circuits (hierarchy / child-module generation via different ancestors, same / fresh generator, createdStructures, simulation steps, crashing generation, circuit extended between generations); oracles: canonical text stable per request, never-generated twin simulates identically, text after extension equals that of a never-generated circuit',
+         'samples histories; canonicalisation = hex-suffix renaming + sorted wire declarations (the two differences the statement allows)'),
+ 'C20': ('real CMDRequest / CMDResponse (also chained) against a fake character producer and response consumer with seeded gaps and READY; oracle: command-level reference parser (each action pulses once with the right number, K n ; gives n pulses), response spelling, bounded progress',
+         'samples; a new O..? only after the previous response was taken'),
 }
 TECH = 'deterministic simulation with fault injection: seeded schedule/fault search, invariants per step + history oracles, minimised replay'
 
